@@ -188,3 +188,45 @@ def classify(base):
     return ('OTHER', base)
 
 
+
+
+def _is_lanes16(e):
+    """The SSE2 lane count: the literal 16 or `<Sse2 as Backend>::Lanes::USIZE`."""
+    e = norm(e)
+    if e[0] == 'k' and e[1] == 16:
+        return True
+    return e[0] == 'kc' and e[1].endswith('Unsigned::USIZE') and 'Sse2' in e[1] and 'Backend>::Lanes' in e[1]
+
+
+def block_offset(db, f, E, H):
+    """How the element of loop H enumerates the 16-column blocks of a row, or None.
+        ('offset', 16): element = 16 * position, position in 0..C/16    (`(0..Q).map(|i| i * 16)`, `(0..C).step_by(16)`)
+        ('block', 1)  : element = position in 0..C/16                  (`0..Q`; the kernel multiplies by 16 itself)
+    Q = <C as MultipleOf<U16>>::Quotient.  The step_by form needs C to be a multiple of 16: the where-clause `C: MultipleOf<U16>` of f."""
+    from . import common
+    L = E.loops[H]
+    it = L.iter
+    if not it:
+        return None
+    if it[0] == 'range' and norm(it[1]) == ('k', 0) and common.is_usize_const(it[2], 'Q'):
+        return ('block', 1)
+    if it[0] != 'iter' or not isinstance(it[1], tuple) or it[1][0] != 'call':
+        return None
+    c = it[1]
+    if c[1].endswith('Iterator::map') and len(c[2]) == 2:
+        src, clo = c[2]
+        if not (src[0] == 'agg' and len(src[2]) == 2 and norm(src[2][0]) == ('k', 0) and common.is_usize_const(src[2][1], 'Q')):
+            return None
+        if clo[0] == 'agg' and clo[1][0] == 'closure' and clo[1][1] in db.fns:
+            ce = common.return_expr_single_path_allow(db.fns[clo[1][1]])
+            b = m(('bin', 'Mul', '$a', '$b'), norm(ce)) if ce is not None else None
+            if b is not None and ((b['$a'] == ('p', 2) and _is_lanes16(b['$b'])) or (b['$b'] == ('p', 2) and _is_lanes16(b['$a']))):
+                return ('offset', 16)
+        return None
+    if c[1].endswith('Iterator::step_by') and len(c[2]) == 2:
+        src, step = c[2]
+        if src[0] == 'agg' and len(src[2]) == 2 and norm(src[2][0]) == ('k', 0) and common.is_usize_const(src[2][1], 'C') and _is_lanes16(step):
+            preds = f.raw.get('preds') or []
+            if any('<C as lightmotif::num::MultipleOf<' in p and ('U16' in p.split('MultipleOf<', 1)[1] or 'Sse2 as lightmotif::pli::platform::Backend>::Lanes' in p) for p in preds):
+                return ('offset', 16)
+    return None
